@@ -1,5 +1,370 @@
-/- Driver for C15 (stub until the property's model is written). -/
+/- Driver for C15: the real squareroot()/nextretry()/prioq_*()/pass_dochan()/del_dochan()/pqrun()/
+   pqfinish()/pqstart() of qmail-send.c and prioq.c (harness/c15_sched.c) against Nq.Sched, with the
+   property predicates of Nq.Spec.Sched evaluated on the implementation's outputs.
+   Input lines: see harness/c15_sched.c. -/
 import Drv.Util
-open Drv
-def handle (st : Stats) (_line : String) : IO Stats := return { st with cases := st.cases + 1 }
+import Nq.Sched
+import Nq.Spec.Sched
+import Nq.SchedHist
+
+open Nq Nq.Sched Nq.Spec.Sched Nq.SchedHist Drv
+
+def chanOf (s : String) : Option Chan :=
+  if s == "0" then some .loc else if s == "1" then some .rem else none
+
+def parseElt (s : String) : Option Elt :=
+  match s.splitOn ":" with
+  | [a, b] => match a.toInt?, b.toNat? with
+    | some dt, some id => some { dt := dt, id := id }
+    | _, _ => none
+  | _ => none
+
+def parseElts (s : String) : Option (List Elt) :=
+  if s == "-" then some [] else (s.splitOn ",").mapM parseElt
+
+/-- `none` = delmin, `some dt` = insert -/
+def parseOps (s : String) : Option (List (Option Int)) :=
+  if s == "-" then some [] else
+  (s.splitOn ",").mapM fun t =>
+    if t == "d" then some none
+    else if t.startsWith "i" then (t.drop 1).toString.toInt?.map some
+    else none
+
+def parseMins (s : String) : Option (List (Option Elt)) :=
+  if s == "-" then some [] else
+  (s.splitOn ",").mapM fun t => if t == "e" then some none else (parseElt t).map some
+
+def showElts (l : List Elt) : String :=
+  if l.isEmpty then "-" else ",".intercalate (l.map fun e => s!"{e.dt}:{e.id}")
+
+/-- model replay of an op sequence: (mins seen by the deletions, final array) -/
+def replayOps (ops : List (Option Int)) : List (Option Elt) × PQ := Id.run do
+  let mut q : PQ := #[]
+  let mut mins : Array (Option Elt) := #[]
+  let mut i := 0
+  for op in ops do
+    i := i + 1
+    match op with
+    | some dt => q := q.insert { dt := dt, id := i }
+    | none => mins := mins.push q.min; q := q.delmin
+  return (mins.toList, q)
+
+/-- property oracle for an op sequence, on the implementation's answers only: every deletion returned
+a minimum of what was in the queue (or "empty" iff it was empty), exactly that entry left, and the
+final array is heap-ordered and holds exactly the surviving entries. -/
+def oracleOps (ops : List (Option Int)) (mins : List (Option Elt)) (final : List Elt) : Option String := Id.run do
+  let mut alive : List Elt := []
+  let mut ms := mins
+  let mut i := 0
+  for op in ops do
+    i := i + 1
+    match op with
+    | some dt => alive := { dt := dt, id := i } :: alive
+    | none =>
+      match ms with
+      | [] => return some "fewer delmin answers than deletions"
+      | m :: rest =>
+        ms := rest
+        match m with
+        | none => if !alive.isEmpty then return some s!"op {i}: prioq_min says empty but {alive.length} entries are queued"
+        | some e =>
+          if !isMinOf e alive then return some s!"op {i}: prioq_min returned {e.dt}:{e.id} which is not a minimum"
+          match removeOne e alive with
+          | none => return some s!"op {i}: prioq_min returned {e.dt}:{e.id} which is not in the queue"
+          | some a' => alive := a'
+  if !heapB final.toArray then return some "final array is not heap-ordered"
+  if !sameMultiset final alive then return some s!"final array {showElts final} is not the multiset of surviving entries"
+  return none
+
+def two32 : Int := 4294967296
+
+
+/-! ### daemon histories -/
+
+def parseStep (t : String) : Step :=
+  let body := (t.drop 1).toString
+  match t.front with
+  | 'm' => match body.splitOn "," with
+    | [a, b, c, d, e] => match a.toNat?, chanOf b, c.toInt?, d.toInt?, e.toNat? with
+      | some id, some ch, some birth, some due, some n => .mk id ch birth due n
+      | _, _, _, _, _ => .bad
+    | _ => .bad
+  | 'L' => .load
+  | 't' => match body.toInt? with | some x => .clock x | none => .bad
+  | 'a' => .alrm
+  | 'w' => .wake
+  | 'f' => .fin
+  | 'p' => match body.splitOn "," with
+    | [c] => match chanOf c with | some ch => .pass ch [90] | none => .bad
+    | [c, l] => match chanOf c with
+      | some ch => .pass ch (if l.isEmpty then [90] else l.toUTF8.toList)
+      | none => .bad
+    | _ => .bad
+  | _ => .bad
+
+def parseEv (t : String) : Option Ev :=
+  match t.splitOn "/" with
+  | [h] =>
+    if h.startsWith "w" then (h.drop 1).toString.toInt?.map Ev.wake else some (.plain h)
+  | ["L", a, b, c] => do some (.load (← parseElts a) (← parseElts b) (← parseElts c))
+  | ["a", a, b] => do some (.alrm (← parseElts a) (← parseElts b))
+  | ["f", a, b] => do some (.fin (← parseElts a) (← parseElts b))
+  | [h, a, b, c] =>
+    if h == "p0" then do some (.pass 0 0 false 0 "" 0 0 (← parseElts a) (← parseElts b) (← parseElts c))
+    else if h.startsWith "p" then
+      match (h.drop 1).toString.splitOn "," with
+      | [id, retry, dying, ndel, recs, npar, ntoo] => do
+        some (.pass (← id.toNat?) (← retry.toInt?) (dying == "1") (← ndel.toNat?) recs (← npar.toNat?) (← ntoo.toNat?)
+                (← parseElts a) (← parseElts b) (← parseElts c))
+      | _ => none
+    else none
+  | _ => none
+
+def minDt (l : List Elt) : Option Int := l.foldl (fun m e => match m with | none => some e.dt | some x => some (if e.dt < x then e.dt else x)) none
+
+/-- what the property demands of the records of an expiring / ordinary pass (independent of the model):
+returns (records after, bounce paragraphs added, too-long paragraphs added, deliveries) -/
+def specAnswer (dying : Bool) (letters : List Byte) : List Bool → Nat → List Bool × Nat × Nat × Nat
+  | [], k => ([], 0, 0, k)
+  | false :: r, k => let (r', p, t, k') := specAnswer dying letters r k; (false :: r', p, t, k')
+  | true :: r, k =>
+    let l := letters.getD (k % letters.length) 90
+    let (r', p, t, k') := specAnswer dying letters r (k + 1)
+    if l = 75 then (false :: r', p, t, k')                          -- K: done
+    else if l = 68 then (false :: r', p + 1, t, k')                  -- D: bounced, done
+    else if l = 90 then (if dying then (false :: r', p + 1, t + 1, k') else (true :: r', p, t, k'))  -- Z
+    else (true :: r', p, t, k')                                      -- mangled: deferred
+
+structure OSt where
+  clock : Int := 0
+  q0 : List Elt := []
+  q1 : List Elt := []
+  done : List Elt := []
+  births : List (Nat × Int) := []
+  recs : List ((Nat × Chan) × List Bool) := []     -- records per channel file, from the script and earlier events
+  bounce : List (Nat × (Nat × Nat)) := []          -- per message: paragraphs, too-long paragraphs seen so far
+  dues : List ((Nat × Chan) × Int) := []           -- mtime given by the script
+  atFin : Option (List Elt × List Elt) := none     -- heaps when pqfinish ran (cleared by anything but L)
+
+def OSt.q (o : OSt) : Chan → List Elt | .loc => o.q0 | .rem => o.q1
+
+def lookupD {α β} [BEq α] (k : α) (d : β) (l : List (α × β)) : β := ((l.find? (·.1 == k)).map (·.2)).getD d
+def setKey {α β} [BEq α] (k : α) (v : β) (l : List (α × β)) : List (α × β) := (k, v) :: l.filter (fun x => !(x.1 == k))
+
+instance : BEq Chan := ⟨fun a b => decide (a = b)⟩
+
+/-- the property oracle for one history step, evaluated on the implementation's event -/
+def oracleStep (lifetime : Int) (o : OSt) (stp : Step) (ev : Ev) : OSt × Option String :=
+  match stp, ev with
+  | .mk id c birth due nrec, _ =>
+    let births := if (o.births.find? (·.1 == id)).isSome then o.births else (id, birth) :: o.births
+    ({ o with births := births, recs := setKey (id, c) (List.replicate nrec true) o.recs,
+              dues := setKey (id, c) due o.dues, atFin := none }, none)
+  | .clock t, _ => ({ o with clock := t }, none)
+  | .load, .load a b d =>
+    let o' := { o with q0 := a, q1 := b, done := d, atFin := none }
+    if !(heapB a.toArray && heapB b.toArray && heapB d.toArray) then (o', some "heap order broken after pqstart") else
+    match o.atFin with
+    | some (f0, f1) =>
+      if sameMultiset a f0 && sameMultiset b f1 then (o', none)
+      else (o', some s!"schedule not preserved by TERM+restart: before {showElts f0}/{showElts f1} after {showElts a}/{showElts b}")
+    | none =>
+      let exp (c : Chan) := o.dues.filterMap fun ((id, c'), due) =>
+        if c' == c && (o.recs.find? (·.1 == (id, c))).isSome then some ({ dt := due, id := id } : Elt) else none
+      if o.q0.isEmpty && o.q1.isEmpty && sameMultiset a (exp .loc) && sameMultiset b (exp .rem) then (o', none)
+      else if !(o.q0.isEmpty && o.q1.isEmpty) then (o', none)   -- crash restart: not covered by the property
+      else (o', some "pqstart did not load the persisted due times (mtime of the channel files)")
+  | .alrm, .alrm a b =>
+    let o' := { o with q0 := a, q1 := b, atFin := none }
+    let ok (n old : List Elt) := n.all (fun e => e.dt == o.clock) && sameMultiset (n.map fun e => { e with dt := 0 }) (old.map fun e => { e with dt := 0 })
+    if ok a o.q0 && ok b o.q1 then (o', none) else (o', some "after ALRM (pqrun) not every scheduled message is due now")
+  | .wake, .wake t =>
+    let lim := o.clock + SLEEP_FOREVER
+    let ok := decide (t ≤ lim) && (o.q0 ++ o.q1 ++ o.done).all (fun e => decide (t ≤ e.dt))
+    (o, if ok then none else some s!"wakeup {t} is later than the earliest due time")
+  | .fin, .fin m0 m1 =>
+    let ok (q m : List Elt) := q.all fun e => m.contains e
+    let o' := { o with atFin := some (o.q0, o.q1), q0 := [], q1 := [] }
+    if ok o.q0 m0 && ok o.q1 m1 then (o', none) else (o', some "pqfinish did not persist every due time as the channel file's mtime")
+  | .pass c letters, .pass id retry dying ndel recs npar ntoo a b d =>
+    let o' := { o with q0 := a, q1 := b, done := d, atFin := none }
+    let prev := o.q c
+    if id = 0 then
+      match minDt prev with
+      | some m => if m ≤ o.clock then (o', some s!"a message due at {m} was not started at {o.clock}") else (o', none)
+      | none => (o', none)
+    else
+      match prev.find? (·.id == id) with
+      | none => (o', some s!"started message {id} which was not scheduled on this channel")
+      | some e =>
+        let birth := lookupD id 0 o.births
+        let age := o.clock - birth
+        let before := lookupD (id, c) [] o.recs
+        let (after, p, t, k) := specAnswer dying letters before 0
+        let gone := after.all (fun b => !b)
+        let recsExp := if gone then "gone" else recsString (some after)
+        let (p0, t0) := lookupD id (0, 0) o.bounce
+        let o' := { o' with recs := if gone then o'.recs.filter (fun x => !(x.1 == (id, c))) else setKey (id, c) after o'.recs,
+                            bounce := setKey id (npar, ntoo) o'.bounce }
+        let newq := o'.q c
+        let rest := (removeOne e prev).getD prev
+        if e.dt > o.clock then (o', some s!"message {id} started at {o.clock}, before its retry time {e.dt}")
+        else if some e.dt != minDt prev then (o', some s!"message {id} (due {e.dt}) started while an earlier-due message waits")
+        else if retry ≤ o.clock then (o', some s!"retry time {retry} is not in the future of {o.clock}")
+        else if 0 ≤ age && age < two32 && !isRetryB o.clock birth c retry then (o', some s!"retry time {retry} is not birth+(isqrt(age)+skip)^2 for birth {birth} now {o.clock}")
+        else if dying != decide (o.clock > birth + lifetime) then (o', some s!"expiry flag {dying} wrong for birth {birth} lifetime {lifetime} now {o.clock}")
+        else if recs != recsExp then (o', some s!"records after the pass are {recs}, the property requires {recsExp} (dying={dying})")
+        else if npar != p0 + p || ntoo != t0 + t then (o', some s!"bounce paragraphs {npar}/{ntoo} (too long), required {p0 + p}/{t0 + t}")
+        else if ndel != k then (o', some s!"{ndel} deliveries started for {k} pending recipients")
+        else if gone then
+          (if sameMultiset newq rest then (o', none) else (o', some s!"message {id} left the channel but the heap is not the old one minus it"))
+        else if !sameMultiset newq ({ dt := retry, id := id } :: rest) then
+          (o', some s!"after the pass message {id} is not rescheduled exactly at its retry time {retry}")
+        else if !(heapB a.toArray && heapB b.toArray) then (o', some "heap order broken")
+        else (o', none)
+  | _, .plain "bad" => (o, none)
+  | _, _ => (o, some "event does not match the step")
+
+def handleHist (st : Stats) (line : String) (rest : List String) : IO Stats := do
+  match rest with
+  | [lts, script, events] =>
+    match lts.toInt? with
+    | none => IO.println s!"DISAGREE unparsable history {line.take 200}"; return { st with disagree := st.disagree + 1, cases := st.cases + 1 }
+    | some lifetime =>
+      let steps := if script == "-" then [] else (script.splitOn ";").map parseStep
+      let evs := if events == "-" then [] else (events.splitOn ";").map parseEv
+      let h := hashBytes line.toUTF8.toList
+      let fresh := !st.seen.contains h
+      let mut st := { st with cases := st.cases + 1, seen := st.seen.insert h, nontrivial := st.nontrivial + (if fresh then 1 else 0) }
+      st := st.bump "histories"
+      if steps.length != evs.length then
+        IO.println s!"DISAGREE in=S,{lts},{script} what=event_count"
+        return { st with disagree := st.disagree + 1 }
+      let mut ms : HSt := { lifetime := lifetime }
+      let mut os : OSt := {}
+      let mut dis : Option String := none
+      let mut orc : Option String := none
+      let mut k := 0
+      for (stp, ev?) in steps.zip evs do
+        k := k + 1
+        match ev? with
+        | none => if dis.isNone then dis := some s!"step {k}: unparsable event"
+        | some ev =>
+          let (ms', mev) := step ms stp
+          ms := ms'
+          -- after pqstart the array order depends on readdir: compare as multisets and adopt the implementation's arrays
+          match mev, ev with
+          | .load a b d, .load a' b' d' =>
+            if sameMultiset a a' && sameMultiset b b' && sameMultiset d d' then
+              ms := { ms with q0 := a'.toArray, q1 := b'.toArray, done := d'.toArray }
+            else if dis.isNone then dis := some s!"step {k}: model loads {showElts a}/{showElts b}/{showElts d}"
+          | _, _ => if !(mev == ev) && dis.isNone then dis := some s!"step {k}: model event {repr mev}"
+          match stp, ev with
+          | .pass _ _, .pass id _ dying _ _ _ _ _ _ _ =>
+            st := st.bump (if id = 0 then "hist_pass_none" else if dying then "hist_pass_expiring" else "hist_pass_started")
+          | .fin, _ => st := st.bump "hist_term_restart"
+          | .alrm, _ => st := st.bump "hist_alrm"
+          | _, _ => pure ()
+          let (os', why) := oracleStep lifetime os stp ev
+          os := os'
+          match why with
+          | some w => if orc.isNone then orc := some s!"step {k}: {w}"
+          | none => pure ()
+      match dis with
+      | some d =>
+        IO.println s!"DISAGREE in=S,{lts},{script} what={((d.replace " " "_").replace "\n" "").take 1500} events={events.take 1500}"
+        st := { st with disagree := st.disagree + 1 }
+      | none => pure ()
+      match orc with
+      | some w =>
+        IO.println s!"ORACLE in=S,{lts},{script} what={(w.replace " " "_").take 600} events={events.take 2500}"
+        st := { st with oracle := st.oracle + 1 }
+      | none => pure ()
+      if st.samples < 5 && st.samples ≥ 3 && fresh && script.length < 260 && (events.splitOn ",1,").length > 1 then
+        IO.println s!"SAMPLE history lifetime={lts} script={script} events={events}"
+        st := { st with samples := st.samples + 1 }
+      return st
+  | _ => IO.println s!"DISAGREE unparsable history {line.take 200}"; return { st with disagree := st.disagree + 1, cases := st.cases + 1 }
+
+def handle (st : Stats) (line : String) : IO Stats := do
+  let bad := fun (st : Stats) => do
+    IO.println s!"DISAGREE unparsable line {line.take 300}"
+    return { st with disagree := st.disagree + 1, cases := st.cases + 1 }
+  match fields line with
+  | ["Q", los, his, rs] =>
+    match los.toInt?, his.toInt?, rs.toInt? with
+    | some lo, some hi, some r =>
+      let n := (hi - lo + 1).toNat
+      let mut st := { st with cases := st.cases + n }
+      st := { st with nontrivial := st.nontrivial + (if 0 ≤ lo ∧ hi < two32 then n else 0) }
+      st := st.bump (if hi < 0 then "sqrt_negative_runs" else if lo ≥ two32 then "sqrt_saturated_runs" else "sqrt_runs")
+      let mid := (lo + hi) / 2
+      if squareroot lo != r || squareroot hi != r || squareroot mid != r then
+        IO.println s!"DISAGREE in=Q,{lo},{hi} impl={r} model={squareroot lo},{squareroot mid},{squareroot hi}"
+        st := { st with disagree := st.disagree + 1 }
+      -- oracle: every x of the run that lies in 0..2^32-1 has r as its exact integer root
+      if 0 ≤ hi ∧ lo < two32 then
+        let lo' := if lo < 0 then 0 else lo
+        let hi' := if hi < two32 then hi else two32 - 1
+        if !(decide (IsSqrt lo' r) && decide (IsSqrt hi' r)) then
+          let x := if decide (IsSqrt lo' r) then hi' else lo'
+          IO.println s!"ORACLE in=Q,{x},{x} what=squareroot({x})={r}_is_not_the_integer_square_root"
+          st := { st with oracle := st.oracle + 1 }
+      if st.samples < 1 && lo > 1000000 then
+        IO.println s!"SAMPLE squareroot(x)={r} for every x in [{lo},{hi}]"
+        st := { st with samples := st.samples + 1 }
+      return st
+    | _, _, _ => bad st
+  | ["QOVER", _] =>
+    IO.println s!"DISAGREE in=Q what=too_many_runs_(squareroot_not_monotone_step_function)"
+    return { st with disagree := st.disagree + 1 }
+  | ["N", bs, rs, cs, ts] =>
+    match bs.toInt?, rs.toInt?, chanOf cs, ts.toInt? with
+    | some birth, some recent, some c, some t =>
+      let mut st := { st with cases := st.cases + 1, nontrivial := st.nontrivial + 1 }
+      let age := recent - birth
+      st := st.bump (if age < 0 then "retry_birth_in_future" else if age < two32 then "retry_in_domain" else "retry_saturated")
+      let m := nextretry recent birth c
+      if m != t then
+        IO.println s!"DISAGREE in=N,{birth},{recent},{cs} impl={t} model={m}"
+        st := { st with disagree := st.disagree + 1 }
+      if age < two32 then
+        let okFuture := decide (t > recent)
+        let okFormula := age < 0 || isRetryB recent birth c t
+        if !(okFuture && okFormula) then
+          let what := if okFuture then "retry_time_is_not_birth+(isqrt(age)+skip)^2" else "retry_time_not_strictly_in_the_future"
+          IO.println s!"ORACLE in=N,{birth},{recent},{cs} impl={t} what={what}"
+          st := { st with oracle := st.oracle + 1 }
+      if st.samples < 2 && age > 100000 && age < two32 then
+        IO.println s!"SAMPLE nextretry(birth={birth},recent={recent},chan={cs})={t} (age {age}, retry in {t - recent} s)"
+        st := { st with samples := st.samples + 1 }
+      return st
+    | _, _, _, _ => bad st
+  | ["H", opss, minss, finals] =>
+    match parseOps opss, parseMins minss, parseElts finals with
+    | some ops, some mins, some final =>
+      let h := hashBytes opss.toUTF8.toList
+      let fresh := !st.seen.contains h
+      let nontriv := ops.length ≥ 3
+      let mut st := { st with cases := st.cases + 1, seen := st.seen.insert h,
+                              nontrivial := st.nontrivial + (if fresh && nontriv then 1 else 0) }
+      st := st.bump (if ops.length ≤ 12 then "pq_exhaustive_seqs" else "pq_random_seqs")
+      let (mm, mq) := replayOps ops
+      if mm != mins || mq.toList != final then
+        IO.println s!"DISAGREE in=H,{opss.take 2000} impl_final={(showElts final).take 600} model_final={(showElts mq.toList).take 600}"
+        st := { st with disagree := st.disagree + 1 }
+      match oracleOps ops mins final with
+      | some why =>
+        IO.println s!"ORACLE in=H,{opss.take 3000} mins={minss.take 1500} final={finals.take 1500} what={why.replace " " "_"}"
+        st := { st with oracle := st.oracle + 1 }
+      | none => pure ()
+      if st.samples < 3 && ops.length ≥ 8 && ops.length ≤ 12 && mins.length ≥ 3 then
+        IO.println s!"SAMPLE prioq ops={opss} mins={minss} final={finals}"
+        st := { st with samples := st.samples + 1 }
+      return st
+    | _, _, _ => bad st
+  | "S" :: rest => handleHist st line rest
+  | [] => return st
+  | _ => bad st
+
 def main : IO Unit := runDriver handle
